@@ -430,6 +430,9 @@ DEFAULT_STRATEGIES = tuple(os.environ.get('VERIF_STRATEGIES', 'z3quick,inst,cli,
 
 def decide(axioms, vc, budget_s, pins=None, want=None, strategies=None, seed=0):
     """runs inside the worker"""
+    if strategies is None and getattr(vc, 'local', False):
+        # local proofs have few hypotheses: the trigger-directed instantiation is cheap there and is what they usually need
+        strategies = ('z3quick', 'tinst', 'inst', 'cli', 'z3', 'inst2')
     strategies = strategies or DEFAULT_STRATEGIES
     t0 = time.time()
     if seed:
